@@ -208,7 +208,7 @@ REQUIRED = {
     "C07": [("YkEpoch", 1), ("epoch trace", 3), ("_stall", 1)],
     "C08": _CONC_MODELS + [("exhaustive sequential model", 1), ("trace seed=", 6), ("splitsweep=1", 1), ("linearization search", 20), ("_pair_", 2), ("_chain_", 2), ("_collapse2_", 3), ("_splitdrain_", 2)],
     "C09": _CONC_MODELS + [("linearization search", 25), ("_pair_", 2), ("_chain_", 2), ("_collapse2_", 3), ("_splitdrain_", 2)],
-    "C10": [("trace seed=", 6), ("exhaustive sequential cursor model", 1), ("YkConc9 config", 2), ("step-level conformance of the cursor across a next-layer link", 3), ("linearization search", 14), ("pmod=", 2), ("YkConc4 config", 2), ("step-level conformance of split under a parent", 2)],
+    "C10": [("trace seed=", 6), ("exhaustive sequential cursor model", 1), ("exhaustive paused-cursor model", 2), ("cursorsweep=1", 1), ("YkConc9 config", 2), ("step-level conformance of the cursor across a next-layer link", 3), ("linearization search", 14), ("pmod=", 2), ("YkConc4 config", 2), ("step-level conformance of split under a parent", 2)],
     "C11": [("YkLife", 1), ("lifecycle trace", 2), ("epoch trace", 2)],
     "C12": [("exhaustive sequential model", 1), ("trace seed=", 4), ("mode=deep", 1), ("linearization search C12c", 10)],
     "C13": [("YkMap state machine", 1), ("trace seed=", 2), ("_ddl_", 3)],
